@@ -862,24 +862,30 @@ def run(ctx):
     }
     reasons_seen = {k[len("reason:"):] for k in c if k.startswith("reason:")}
     want = {r[1] for r in DNS_REASONS} | {"modulo-trailing-dot"}
-    out_keys = set(acc.outcomes)
+    def seen(phase, verdict):
+        # reference-side count: cases of this phase the reference classified as `verdict`
+        # (each of them is either handled as expected by the real code or reported as a
+        # violation, so diversity of the *expectation* implies the real code was exercised on
+        # both sides; guards must not depend on the real code behaving)
+        pre = "%s:%s:" % (phase, verdict)
+        return sum(v for k, v in acc.outcomes.items() if k.startswith(pre))
+
     vac = [
         (c["pairs_pairs"] == expected_pairs, "single-entry pass incomplete: %d != %d" % (c["pairs_pairs"], expected_pairs)),
         (want <= reasons_seen, "reference clauses never exercised: %s" % sorted(want - reasons_seen)),
-        (all(c["verdict:" + VNAME[v]] > 0 for v in (A, R, E)), "a verdict class is empty"),
-        (c["observed:accept"] > 0 and c["observed:CertificateError"] > 0 and c["observed:CertificateError(too many wildcards)"] > 0,
-         "real matcher outcomes not diverse"),
-        ("pairs:must-accept:accept" in out_keys and "pairs:must-reject:CertificateError" in out_keys, "pairs: accept/reject not both seen"),
-        ("wrapper_pairs:must-accept:accept" in out_keys, "wrapper never accepted"),
+        (all(seen("pairs", VNAME[v]) > 100 for v in (A, R, E)), "pairs: a verdict class is (nearly) empty"),
+        (seen("wrapper_pairs", "must-accept") > 0 and seen("wrapper_pairs", "must-reject") > 0, "wrapper pairs one-sided"),
+        (seen("cn_on", "must-accept") > 0 and seen("cn_on", "must-reject") > 0 and seen("cn_off", "must-reject") > 0
+         and seen("cn_off", "must-accept") == 0 and c["A_via_cn"] > 0, "commonName paths not exercised"),
+        (seen("lists", "must-accept") > 1000 and seen("lists", "must-reject") > 1000 and seen("lists", "either") > 0, "lists one-sided"),
         (c["entry_classes_max_per_host"] >= 8 and len(classes) >= 20, "too few behaviour classes: %d/%d" % (c["entry_classes_max_per_host"], len(classes))),
         (c["A_entry_not_first"] > 100, "no list whose matching entry is preceded by others"),
-        (c["A_via_cn"] > 0 and "cn_on:must-accept:accept" in out_keys and "cn_on:must-reject:CertificateError" in out_keys
-         and "cn_off:must-reject:CertificateError" in out_keys, "commonName paths not exercised"),
         (all(c["R_" + n] > 0 for n in ("cn-ignored-ip-host", "cn-ignored-not-enabled", "cn-ignored-san-present")), "a CN rule was never exercised"),
-        (c["A_ip_match_hostname"] > 0 and c["A_ip__match_hostname"] > 0 and c["A_bracketed_ip_wrapper"] > 0, "IP accept paths not exercised"),
+        (c["A_ip_match_hostname"] > 0 and c["A_ip__match_hostname"] > 0 and c["A_bracketed_ip_wrapper"] > 0, "IP must-accept paths not exercised"),
         (c["fp_flips"] == expected_flips, "nibble flips: %d != %d" % (c["fp_flips"], expected_flips)),
-        (all(("fp:%s:accept:accept" % a) in out_keys and ("fp:%s:reject:SSLError" % a) in out_keys for a in ALGOS.values()), "fingerprint accept/reject not both seen per algorithm"),
-        (len(acc.outcomes) >= 15, "too few outcome classes"),
+        (all(seen("fp", "%s:accept" % a) >= 5 * len(CERTS) and seen("fp", "%s:reject" % a) > 1000 for a in ALGOS.values()),
+         "fingerprint expectations one-sided for an algorithm"),
+        (len({k.rsplit(":", 1)[0] for k in acc.outcomes}) >= 15, "too few expectation classes"),
     ]
     ctx.finish("exploration", acc, cov,
                assumptions=[
